@@ -440,6 +440,7 @@ DsDeepCopy(d) ==
 \* ------------------------------------------------------------------ next-state relation
 Gs == IF GrpUse = {} THEN 1..Len(dgs) ELSE GrpUse \cap 1..Len(dgs)
 Os == 1..Len(heap)
+OsUse == IF ObjUse = {} THEN Os ELSE ObjUse \cap Os        \* the objects offered to the object actions of Next
 PairSeqs == {<<<<k, o>>>> : k \in Keys, o \in PoolObjs} \cup {<<<<"a", o1>>, <<"b", o2>>>> : o1 \in {1, 5}, o2 \in {2, 3, 4}}
             \cup {<<<<"b", o2>>, <<"a", o1>>>> : o1 \in {1, 5}, o2 \in {2, 7}}        \* the same items inserted in the other order
 Next ==
@@ -450,10 +451,10 @@ Next ==
   \/ \E g \in Gs : DgClear(g) \/ DgCopy(g) \/ DgDeepCopy(g)
   \/ \E g \in Gs, ps \in PairSeqs : DgUpdate(g, ps)
   \/ \E g \in Gs, kind \in IdxUse : DgIndex(g, kind)
-  \/ \E o \in Os, kind \in IdxUse \ {"maskArr", "iaArr"} : Slice(o, kind)
-  \/ \E o \in Os, how \in {"copy", "deepcopy"} : Copy(o, how)
+  \/ \E o \in OsUse, kind \in IdxUse \ {"maskArr", "iaArr"} : Slice(o, kind)
+  \/ \E o \in OsUse, how \in {"copy", "deepcopy"} : Copy(o, how)
   \/ \E o \in (IF ObjUse = {} THEN Os ELSE ObjUse \cap Os), ui \in 1..3 : ObjTo(o, ui)
-  \/ \E o \in Os, c \in 1..3, src \in Os : VecSet(o, c, src)
+  \/ \E o \in OsUse, c \in 1..3, src \in OsUse : VecSet(o, c, src)
   \/ \E g \in Gs, k \in Keys : DgSortByKey(g, k) \/ DgSortByKeyTies(g, k)
   \/ \E g \in Gs, p \in {<<3, 1, 2>>, <<2, 1>>, <<2, 2, 1>>} : DgSortByIdx(g, p)
   \/ \E op \in OpsUse, o \in (IF ObjUse = {} THEN Os ELSE ObjUse \cap Os), rhs \in {0} \cup (IF ObjUse = {} THEN Os ELSE ObjUse \cap Os) :
